@@ -1,5 +1,5 @@
 (* C20 Locality: results depend only on referenced data *)
-From LD Require Import Base F32 Data Model Ops Bucket Eval EvalFacts Pure Order Locality.
+From LD Require Import Base F32 Data Model Ops Bucket Eval EvalFacts Pure Order Locality Acyclic LocalityEval.
 From Coq Require Import Permutation.
 
 (* flag metadata (version, deleted, client-side availability, debug date, sampling, migration, track-events,
@@ -62,3 +62,30 @@ Theorem C20_insert_dead_rule : forall re_ok re_match o E c segc f dead rs,
   p_rules re_ok re_match o E c segc f (dead :: rs) 0 = shift_result (p_rules re_ok re_match o E c segc f rs 0).
 Proof. exact dead_rule_only_shifts_index. Qed.
 Print Assumptions C20_insert_dead_rule.
+
+(* ---- whole evaluations ----
+   flag_nr n f / env_nr E n: no clause (other than segmentMatch clauses, whose attribute is unused) and no bucket-by of
+   the evaluated flag, of any stored flag or of any stored segment names n as the first component of its reference.
+   Then adding the attribute n := v to every individual context leaves the whole outcome -- value, index, reason,
+   experiment bit, store reads, big-segment queries, log lines, events -- unchanged; eval_flag_c states the same for
+   every nested evaluation from every start state. *)
+Theorem C20_unreferenced_attribute_whole_evaluation : forall re_ok re_match o E P c n v,
+  str_eqb (s "key") n = false -> env_nr E n -> forall f, flag_nr n f ->
+  run re_ok re_match o E P (add_attr_ctx c n v) f = run re_ok re_match o E P c f.
+Proof. exact unreferenced_attribute_is_invisible. Qed.
+Print Assumptions C20_unreferenced_attribute_whole_evaluation.
+
+Theorem C20_unreferenced_attribute_nested : forall re_ok re_match o E P c n v,
+  str_eqb (s "key") n = false -> env_nr E n -> forall fuel chain f, flag_nr n f -> forall st,
+  eval_flag re_ok re_match o E P (add_attr_ctx c n v) fuel chain f st = eval_flag re_ok re_match o E P c fuel chain f st.
+Proof. exact eval_flag_c. Qed.
+Print Assumptions C20_unreferenced_attribute_nested.
+
+Theorem C20_unreferenced_hypotheses_nonvacuous :
+  let cl := mkclause [] (new_literal_ref (s "email")) op_in [JStr (s "a")] false cpre_none in
+  let vr := mkvorr None (mkrollout [] [] [mkwvar 0 100000 false] (new_literal_ref (s "score")) None) in
+  let f := mkflag (s "f") true [] [] [] [mkrule vr (s "r") [cl] false] vr None [JBool true] [] false false
+                  (mkfmeta 0 false false 0 false false false None None) in
+  flag_nr (s "extra") f /\ env_nr (mkenv [(s "f", f)] []) (s "extra") /\ str_eqb (s "key") (s "extra") = false.
+Proof. exact hypotheses_hold_somewhere. Qed.
+Print Assumptions C20_unreferenced_hypotheses_nonvacuous.
